@@ -85,7 +85,7 @@ def snapshot(w):
 def build(sp_choices):
     """Build one world from already drawn concrete choices."""
     w = World()
-    bits, dead, procs, ce = sp_choices
+    bits, dead, procs, ce, detached = sp_choices
     for (e, T), b in bits.items():
         if b:
             w.add_component(e, T(tag='%s%d' % (T.__name__, e)))
@@ -95,6 +95,9 @@ def build(sp_choices):
         w.add_processor(PA(tag='pa'))
     if procs[1]:
         w.add_processor(PB(tag='pb'))
+    if detached:
+        # the controller stops being a component of its entity but keeps knowing entity and world
+        w.remove_component(ce, Ctl)
     for i, e in enumerate(IDS):
         if dead[i] and w.get_components(e):
             w.delete_entity(e)
@@ -171,10 +174,16 @@ def h_twin(sp, steps=1, second_types=3):
     dead = [any(b for (e2, _), b in bits.items() if e2 == e) and bool(sp.flag('dead%d' % e)) for e in IDS]
     procs = [bool(sp.flag('proc%d' % i)) for i in range(2)]
     ce = sp.pick(IDS, 'controller-entity')
-    choices = (bits, dead, procs, ce)
+    detached = bool(sp.flag('controller-detached'))
+    if detached:
+        sp.cover('detached-controller')
+        if not any(b for (e2, _), b in bits.items() if e2 == ce):
+            sp.cover('controller-of-empty-entity')
+    choices = (bits, dead, procs, ce, detached)
     w1, c1 = build(choices)     # plain World calls
     w2, c2 = build(choices)     # shorthands
-    sp.note('built: bits=%s dead=%s procs=%s controller on %r' % (bits, dead, procs, ce))
+    sp.note('built: bits=%s dead=%s procs=%s controller on %r%s' % (
+        {'%s%d' % (T.__name__, e): b for (e, T), b in bits.items()}, dead, procs, ce, ' (then detached)' if detached else ''))
     sp.check(c2.entity == ce and c2.world is w2, 'controller-knows-owner',
              'controller.entity=%r world ok=%s, real owner %r' % (c2.entity, c2.world is w2, ce))
     sp.check(snapshot(w1) == snapshot(w2), 'twin-build', 'twin worlds differ after building')
@@ -201,8 +210,14 @@ def h_twin(sp, steps=1, second_types=3):
         if s1 != s2:
             diff = [k for k in s1 if s1[k] != s2[k]]
             sp.fail('effect', '%s: worlds differ afterwards at %r: %r vs %r' % (op, diff[0], s1[diff[0]], s2[diff[0]]))
-    w1.process(1)
-    w2.process(1)
+    outcomes = []
+    for w in (w1, w2):
+        try:
+            w.process(1)
+            outcomes.append('ok')
+        except Exception as ex:     # noqa  (eg. the documented KeyError for deleting an id that owns nothing)
+            outcomes.append(type(ex).__name__)
+    sp.check(outcomes[0] == outcomes[1], 'effect', 'final process(): World-call world %s, shorthand world %s' % tuple(outcomes))
     sp.check(snapshot(w1) == snapshot(w2), 'effect', 'worlds differ after a final process()')
     # the free-standing builder
     k = desper.controller(ce, w2)
@@ -226,6 +241,10 @@ def h_proto(sp, n_types=3, same_name=True):
         if same_name and i > 0 and sp.flag('same-name%d' % i):
             name = 'K0'                     # same class name, different class
             sp.cover('name-clash')
+        if i > 0 and sp.flag('listed-again%d' % i):
+            kinds.append(kinds[0])          # the same type listed twice
+            sp.cover('type-listed-twice')
+            continue
         kinds.append(type(name, (K,), {}))
     custom_prefix = bool(sp.flag('custom-prefix'))
     prefix = 'make_' if custom_prefix else 'init_'
@@ -249,6 +268,7 @@ def h_proto(sp, n_types=3, same_name=True):
     def mk_func(label):
         def func(t):
             return t(source='dict', via=label)
+        func.label = label
         return func
 
     names_done = {}
@@ -281,7 +301,7 @@ def h_proto(sp, n_types=3, same_name=True):
     for i, t in enumerate(kinds):
         mname = prefix + t.__name__
         if t in eff_dict:
-            expect[i] = ('dict', ('sub-dict%d' if sub_init_methods is not None else 'base-dict%d') % i)
+            expect[i] = ('dict', eff_dict[t].label)     # (a type listed twice shares one entry)
             sp.cover('from-dict')
         elif mname in sub_ns:
             expect[i] = ('method', 'sub-' + mname)
@@ -310,7 +330,8 @@ def h_proto(sp, n_types=3, same_name=True):
     # usable with create_entity
     w = World()
     e = w.create_entity(*proto)
-    sp.check(len(w.get_components(e)) == len({t for t in kinds}), 'proto-create', 'create_entity(*prototype) lost components')
+    if len(set(kinds)) == len(kinds):      # (two components of one type in one create_entity call: outside C01's claim)
+        sp.check(len(w.get_components(e)) == len(kinds), 'proto-create', 'create_entity(*prototype) lost components')
     sp.done()
 
 
@@ -358,9 +379,10 @@ def h_update(sp, max_listeners=3, frames=2):
 
 HARNESSES = {
     'twin': dict(fn=h_twin, nontrivial=COMP_OPS + NULLARY + PROC_OPS,
-                 required=COMP_OPS + NULLARY + PROC_OPS),
+                 required=COMP_OPS + NULLARY + PROC_OPS + ['detached-controller', 'controller-of-empty-entity']),
     'proto': dict(fn=h_proto, nontrivial=['from-dict', 'from-method', 'from-sub-method', 'name-clash', 'sub-init_methods'],
-                  required=['from-dict', 'from-method', 'from-sub-method', 'from-default', 'name-clash', 'sub-init_methods']),
+                  required=['from-dict', 'from-method', 'from-sub-method', 'from-default', 'name-clash', 'sub-init_methods',
+                            'type-listed-twice']),
     'update': dict(fn=h_update, nontrivial=['relayed'], required=['relayed'], split=False),
 }
 TIERS = {
